@@ -22,6 +22,18 @@ CLAIMED = {
         text="C03_de_is_spec: on every byte string and every shape the implementation-shaped bit-level decoder equals the arithmetic reference decoder spec_de written from wire-format.md (acceptance, value, remainder, error kind); C03_varint_exact: the reference varint reader accepts exactly the permitted encodings incl. non-minimal ones (iff with the declarative valid_varint); C03_varint_errors classifies truncation vs bad varint; C03_accepts_encodings: every encoding is accepted with the remainder untouched. The declarative relation for composite shapes and the strict-prefix theorem are not yet proved (the harness checks every strict prefix of every generated encoding against the implementation). Direct oracle: independent Rust decoder from the spec, exhaustive short strings.",
         note=NOTE + "serde visitors (DynVal shape-directed seeds in the harness), from_utf8",
         design="4 (C03)"),
+    'C04': dict(
+        text="C04_total_in_bounds: for every byte string and shape, the decoder over the raw-pointer slice flavour (cursor/end indices; an out-of-range read is Fault, an over-wide shift or bad slice is Panic) equals the reference decoder and returns a value or an error only - proved through a generic flavour-simulation theorem (de_sim) and the invariant cursor <= end = len; borrowed strings/bytes are the sub-list of the input at the cursor (C04_borrowed_in_input); the sequence size hint never exceeds the remaining bytes (C04_hint_sound, rule translated from the source). Partial: the machine-level effect of the unsafe reads and the real allocator are observed by the harness (inputs flush against PROT_NONE pages on either side, counting allocator, adversarial length prefixes), not proved.",
+        note=NOTE + "the unsafe pointer reads themselves (indices into a list in the model), serde's collection visitors and size_hint::cautious, the allocator",
+        design="4 (C04)"),
+    'C10': dict(
+        text="C10_output (frame = plain ++ le(crc(plain))), C10_roundtrip, C10_accept_sound (whatever CRC-checked decoding accepts: consumed bytes followed by their correct checksum, value and length those of plain decoding; by simulation of the CRC modifier with a consumption-tracking slice), C10_checksum_pinned, C10_crc_bound. The burst-error theorem is not proved (partial); the harness applies every single-bit flip and bursts <= width in the algorithm's bit order to every sampled frame and recomputes checksums with an independent bitwise CRC for 10 catalogue algorithms.",
+        note=NOTE + "crate crc (table-driven Digest) as the bitwise Rocksoft model, compared on every frame",
+        design="5 (C10)"),
+    'C11': dict(
+        text="C11_to_io_is_encode / C11_to_io_failure / C11_writer_prefix (writer receives exactly the plain encoding; a failing writer gives an error and holds a prefix), C11_from_io_is_slice (reader path = slice path, reader left holding exactly the bytes after the message), C11_from_io_total (any failing reader, any scratch size: value or error, never a panic or a write outside the scratch), C11_scratch_slots (borrowed data in consecutive disjoint slots). Partial: piecewise delivery inside read_exact/write_all is modelled; the harness drives real std::io readers/writers with 1-byte/short/whole schedules and failure injection at every offset.",
+        note=NOTE + "std::io::{Read::read_exact, Write::write_all, flush}; embedded-io adapters are not yet exercised",
+        design="6 (C11)"),
     'C13': dict(
         text="C13_ops/C13_bytes/C13_length/C13_roundtrip: for every width, sign, byte order and integer a fixint field serialises as exactly size_of raw pushes in the chosen order (never a varint) and decodes back; the extracted model is compared with the real crate on every generated value and the direct oracle (bytes == to_{le,be}_bytes, round trip) runs on the implementation.",
         note=NOTE + "serde's [u8;N] impl (array as tuple) and to_le_bytes/from_le_bytes",
